@@ -298,10 +298,16 @@ def r7_autodetect(ctx, rule):
                 'the plain form', facts, cst)
 
 
+def _separators(ctx, rule):
+    # "lines containing tabs or control characters are skipped ... without leaking into the ruleset" - seed C19-g
+    from . import c07
+    return c07.r1_separator_inclusion(ctx, rule)
+
+
 def rules(tier):
     return [('C19.R1', r1_three_passes), ('C19.R2', r2_password_count), ('C19.R3', r3_multiplicity_and_r6_strip),
             ('C19.R4', r4_skip_paths), ('C19.R5', r5_reader_encoding_and_eol),
-            ('C19.R6', _validated), ('C19.R7', r7_autodetect)]
+            ('C19.R6', _validated), ('C19.R7', r7_autodetect), ('C19.R8', _separators)]
 
 
 META = {
